@@ -23,6 +23,8 @@ DEFSETS = [
     "struct k { struct { uint8 v; } *n; struct { uint8 w; } cells[2][3]; };",
     "struct g1 { uint8 a; };\nstruct useg { g1 arr[2]; g1 *p; g1 one; };",
     "enum Color { RED, GREEN };\ntypedef Color Colour;\ntypedef Colour Kleur;\nflag Perm { R, W };\ntypedef Perm Mode;",
+    "flag Acc : uint16 { NONE = 0, R = 1, W = 2, RW = R | W, X = 4, ALL = 0xffff };\nenum Dup : uint8 { P = 1, Q = 1, Z = 0 };\nstruct m { Acc a; Dup d; };",
+    "struct tagged { struct Entry { uint8 a; uint8 b; } entries[2]; struct E2 { uint8 c; } *next; struct E3 { uint16 d; } one; union U4 { uint8 e; uint16 f; } u; };",
 ]
 
 
@@ -92,10 +94,14 @@ def run(tier, seed):
                                 problems.append(f"hint refers to undeclared cstruct.{ref.attr}")
                         elif isinstance(ref, ast.Name) and ref.id not in known_bare and ref.id not in inl and ref.id != "cstruct":
                             problems.append(f"hint refers to unknown name {ref.id}")
-        # field hints name the field's actual type
+        # field hints name the field's actual type; enum / flag classes list exactly the declared members
         for name in user_types:
             t = cs.resolve(name)
             node = declared.get(name)
+            if isinstance(t, type) and issubclass(t, (Enum, Flag)) and isinstance(node, ast.ClassDef) and t.__name__ == name:
+                listed = [n.targets[0].id for n in node.body if isinstance(n, ast.Assign) and isinstance(n.targets[0], ast.Name)]
+                if listed != list(t.__members__):
+                    problems.append(f"{name}: members listed {listed}, defined {list(t.__members__)}")
             if isinstance(t, type) and issubclass(t, Structure) and isinstance(node, ast.ClassDef) and t.__name__ == name:
                 hints = {n.target.id: ast.unparse(n.annotation) for n in node.body if isinstance(n, ast.AnnAssign) and isinstance(n.target, ast.Name)}
                 for fname, f in t.fields.items():
